@@ -66,6 +66,10 @@ struct St {
     online_at: u64,
     /// List of active stations before the poll being processed.
     pre_las: u128,
+    /// Bytes shown to the station by its PHY since its last token telegram.
+    bytes_since_pass: usize,
+    /// ... or undecodable data (also older data still in its buffer) was dropped since then.
+    garbage_since_pass: bool,
     /// Time of the last poll in which the station consumed a valid telegram, or end of its own
     /// last transmission (garbage is ignored: lenient for the claim rule, see DESIGN 6 C11).
     last_valid_activity: u64,
@@ -113,6 +117,8 @@ impl HandoverMonitor {
                     must_tx_by: None,
                     online_at: 0,
                     pre_las: 0,
+                    bytes_since_pass: 0,
+                    garbage_since_pass: false,
                     last_valid_activity: 0,
                 })
                 .collect(),
@@ -167,6 +173,10 @@ impl Monitor for HandoverMonitor {
         let i = p.st;
         let ts = w.stations[i].cfg.addr;
         self.st[i].pre_las = p.pre.las;
+        self.st[i].bytes_since_pass += p.new_rx_bytes;
+        if p.new_rx_bytes > 0 || p.rx.iter().any(|r| !matches!(r.verdict, RxVerdict::Consumed { .. })) {
+            self.st[i].garbage_since_pass = true;
+        }
         // obligation to transmit after a token from the registered predecessor
         if let Some((by, from)) = self.st[i].must_tx_by {
             if p.t > by && p.txs.is_empty() {
@@ -309,6 +319,17 @@ impl Monitor for HandoverMonitor {
         }
         let slot = w.slot_ticks(i);
         let cfg = &w.stations[i].cfg;
+        // Undecodable data after the pass ends the supervision ("another station is active"): what
+        // the station sends next is judged like the transmission of any station without the token -
+        // unless it is the very repetition that must not happen.
+        if let Hs::Passed { to, .. } = s.hs {
+            let repeats = matches!(frame, Frame::Token { da, sa } if *sa == ts && *da == to);
+            if s.garbage_since_pass && !(repeats && s.bytes_since_pass > 0) {
+                s.hs = Hs::NotHolding;
+                s.offer = None;
+                s.offers.clear();
+            }
+        }
         match s.hs.clone() {
             Hs::Holding => {}
             Hs::NotHolding => {
@@ -436,6 +457,18 @@ impl Monitor for HandoverMonitor {
                         );
                         return;
                     }
+                    // "repeats the pass ... if nothing is heard": bytes that reached the station after
+                    // its pass are something, whether or not they ever became a telegram
+                    if s.bytes_since_pass > 0 && *da == to {
+                        w.violate(
+                            self.prop,
+                            "handover.retry",
+                            "pass-repeated-although-something-was-heard",
+                            Some(ts),
+                            format!("#{ts} repeats its token pass to #{to} although {} byte(s) arrived after the previous attempt (a damaged or truncated telegram is still somebody transmitting)", s.bytes_since_pass),
+                        );
+                        return;
+                    }
                     if *da == to {
                         if attempt >= 3 {
                             w.violate(
@@ -453,6 +486,8 @@ impl Monitor for HandoverMonitor {
                             self.n_retry3 += 1;
                         }
                         s.hs = Hs::Passed { to, attempt: attempt + 1, end: tx.end(), heard: false, tx: idx };
+                        s.bytes_since_pass = 0;
+                        s.garbage_since_pass = false;
                         return;
                     }
                     // a different destination: only after three attempts, with the silent one removed
@@ -504,6 +539,8 @@ impl Monitor for HandoverMonitor {
                     s.hs = Hs::Holding;
                 } else if !matches!(s.hs, Hs::Passed { .. }) {
                     s.hs = Hs::Passed { to: *da, attempt: 1, end: tx.end(), heard: false, tx: idx };
+                    s.bytes_since_pass = 0;
+                    s.garbage_since_pass = false;
                 }
             }
         }
